@@ -8,7 +8,8 @@
      num    numbers in c1/c2, text in c4
      mixed  text where num has an int (-> that column may come back as decimal text),
             an int where num has a float, a bool, an explicit null
-     sparse only the late / rarely appearing column c3; no x, no t
+     sparse only the late / rarely appearing columns: text in c3 and in c2 (where num has a
+            float and mixed an int -> floats and ints may come back as decimal text); no x, no t
      numstr (C01 probe only) numeric-looking text in c1: mixing it with num's ints in one
             block is the case the statement does NOT relax *)
 EXTENDS Integers, Sequences
@@ -21,11 +22,12 @@ ColsAll == {"c1", "c2", "c3", "c4"}
 
 \* ---- C01 round-trip classes
 ClassesRT == {"num", "mixed", "sparse"}
+ClassesCap == {"num"}
 ClassesRTProbe == {"num", "mixed", "sparse", "numstr"}
 KindsTab == [c \in ClassesRTProbe |->
                CASE c = "num"    -> K("int", "flt", "absent", "str")
                  [] c = "mixed"  -> K("str", "int", "bool", "null")
-                 [] c = "sparse" -> K("absent", "absent", "str", "absent")
+                 [] c = "sparse" -> K("absent", "str", "str", "absent")
                  [] c = "numstr" -> K("numstr", "absent", "absent", "str")]
 XTabRT == [c \in ClassesRTProbe |-> CASE c = "num" -> <<1>> [] c = "mixed" -> <<-1>> [] OTHER -> <<>>]
 TTabRT == [c \in ClassesRTProbe |-> CASE c = "num" -> <<"foo">> [] c = "mixed" -> <<"Foo", "bar">> [] OTHER -> <<>>]
